@@ -137,14 +137,16 @@ Definition tx_state_response_complete_ex (i : nat) (hybrid_mode : bool) (c : con
                     | None, None => true
                     | _, _ => false
                     end in
-    if negb hybrid_mode && in_waits then (ST_DATA_OTHER, c)
-    else if negb hybrid_mode && c_out_data_other_at_tx_end c
-    then (ST_DATA_OTHER, c <| c_out_data_other_at_tx_end := false |>)
-    else
+    (* the response is wrapped up (finalize, detach) in every case; in the two yield situations DATA_OTHER is returned afterwards *)
+    let wrap (ret : st) (c : connp) : st * connp :=
       match tx_finalize cb g i c with
-      | (ST_OK, c) => (ST_OK, c <| c_out_tx := None |> <| c_out_state := RES_IDLE |>)
+      | (ST_OK, c) => (ret, c <| c_out_tx := None |> <| c_out_state := RES_IDLE |>)
       | r => r
-      end
+      end in
+    if negb hybrid_mode && in_waits then wrap ST_DATA_OTHER c
+    else if negb hybrid_mode && c_out_data_other_at_tx_end c
+    then wrap ST_DATA_OTHER (c <| c_out_data_other_at_tx_end := false |>)
+    else wrap ST_OK c
   | _ => (rc, c)
   end.
 
